@@ -40,6 +40,7 @@ import (
 	"github.com/TheManticoreProject/Manticore/network/smb/smb_v10/types"
 
 	"verif/checks/smbgen"
+	"verif/checks/smbhist"
 	"verif/enum"
 	"verif/mc/explore"
 	"verif/ref/refsmb"
@@ -60,6 +61,8 @@ func run(c *vf.Ctx) {
 		"SESSION_SETUP_ANDX, TREE_CONNECT_ANDX, NT_CREATE_ANDX, OPEN_ANDX and the TRANSACTION name are plain NUL-terminated strings without format byte; self-tested on published packets")
 	tally := smbgen.NewTally(c)
 	typeLevel(c)
+	// the string and block types keep state between calls: histories Set/Decode/Encode on one object must encode like a fresh one
+	smbhist.All(c, "C05/history", 3)
 	var mu sync.Mutex
 	var samples []map[string]any
 	vf.Par(len(u.Cmds), func(i int) {
